@@ -649,6 +649,20 @@ def bad_tbs(rec):
         rec.count("bad-tb.probed")
         case = {"kind": "tb", "tb": kind}
         rec.case(key=f"tb:{kind}", nontrivial=True, sample=case)
+        # the interface predicate itself, asked before and after elaboration: the verdict is the same, and is the stated one
+        for when in ("before-elaboration", "after-elaboration"):
+            tb = make_tb(kind)
+            try:
+                if when == "after-elaboration":
+                    import hdl21 as h
+
+                    h.elaborate(tb)
+                verdict = hs.is_tb(tb)
+            except Exception:
+                continue
+            rec.count("bad-tb.is_tb-asked")
+            if bool(verdict) == must_reject:
+                rec.violation("is_tb-verdict-wrong", f"is_tb says {verdict} for a module with {kind} ({when}); exactly one scalar port is the interface", case=case, tb=kind, when=when)
         for style in ("proc", "list", "class", "proc-elaborated-before", "class-elaborated-before"):
             tb = make_tb(kind)
             try:
